@@ -153,6 +153,8 @@ def main(run: Run):
     run.functions["amaranth_soc.csr.wishbone.WishboneCSRBridge.elaborate"] = "per-geometry (bounded: width pairs x address widths), all transfers/all time by induction over transfers"
     run.functions["amaranth_soc.csr.wishbone.WishboneCSRBridge.__init__"] = "exercised (geometry refusals counted)"
     run_configs(run, __name__, cfgs)
+    from . import validation
+    validation.add_to(run, ['wb_csr_bridge_ctor'])
     return run.finish(
         explanation="WishboneCSRBridge.elaborate contract by induction over transfers from the reset-idle state: one symbolic "
                     "transfer (all adr/sel/we/dat_w, all CSR read data) unrolled ratio+2 cycles with per-cycle clauses, plus "
